@@ -122,7 +122,7 @@ def check(spec):
     n = len(z)
     G = fs_metric(c)
     tag = f"{route}:{iface}"
-    if ("CRY" in c["w"] or ("PhaseShift" in c["w"] and n >= 2)) and route not in ("adjoint", "fisher"):
+    if ("CRY" in c["w"] or ("PhaseShift" in c["w"] and XD.n_gate_params(c["w"]) >= 2)) and route not in ("adjoint", "fisher"):
         # recorded defect class (generator contains a Projector): one signature per route / interface
         tag = f"projector-generator:{route}:{iface}"
     if route in ("full", "full-unitary", "adjoint", "fisher"):
